@@ -257,6 +257,15 @@ def py_index(eng, st, v: Val, idx: Val, origin: str) -> Val:
         eng.may_raise(st, And(Le(IntVal(0), j), Lt(j, n)), "IndexError", origin)
         ety = STR if isinstance(v.ty, TStr) else v.ty.elem
         return wrap(eng, ety, At(v.t, j))
+    if isinstance(v, V) and isinstance(v.ty, TTup):
+        k = _const_int(idx)
+        if k is None:
+            raise GenerationError("tuple index must be constant")
+        if not (-len(v.ty.items) <= k < len(v.ty.items)):
+            eng.may_raise(st, FALSE, "IndexError", origin)
+            return NoneV()
+        k = k % len(v.ty.items)
+        return wrap(eng, v.ty.items[k], d.field(v.t, f"f{k}"))
     if isinstance(v, V) and isinstance(v.ty, TRec):
         k = _const_str(idx)
         if k is None or k not in v.ty.fields:
